@@ -23,7 +23,7 @@ class C16(ModelCheck):
     level_text = ("Generated-input exploration over blur intervals, real-valued arrival times and record-writing paths, with the "
                   "reference model supplying the true arrival time of every record; exact floor/multiple oracle.")
     assumptions = ["true times are the virtual clock readings at command receipt", "crash-free histories"]
-    quick = dict(examples=2000, max_ops=36, workers=8)
+    quick = dict(examples=3000, max_ops=36, workers=8)
     thorough = dict(examples=100000, max_ops=80, workers=16)
 
     @staticmethod
